@@ -19,7 +19,7 @@ RULE = (
     "or by a relative 1e-9; Bag range; label "
     "key sets; collection sizes; the type of any child incl. flows and the content type of sparse containers with "
     "empty / disjoint / overlapping keys), both filled to reachable states (same or different streams, possibly "
-    "empty), both operand orders, + and +=, with the process-global comparison tolerances of histogrammar.util at 0, "
+    "empty; optionally taken through copy / pickle / JSON reload / zero() / * 0), both operand orders, + and +=, with the process-global comparison tolerances of histogrammar.util at 0, "
     "1e-6 or 1e-3 (they are for ==, not for merge compatibility).  Oracle: the operation raises and the normalised documents of both "
     "operands are identical before and after; compatible control pairs (A vs a second build of A) must not raise and "
     "must leave the right operand untouched.  Non-trivial: an incompatible pair whose difference is at depth >= 1 or "
@@ -53,7 +53,9 @@ def strategy(tier):
             sb, _ = draw(gen.streams(spec, max_rows=10, focus=focus))
         # the process-global comparison tolerances (histogrammar.util) are for ==, never for merge compatibility
         tol = draw(st.sampled_from((0.0, 0.0, 1e-6, 1e-3)))
-        return {"spec": spec, "variants": variants, "sa": [[r, w] for r, w in sa], "sb": [[r, w] for r, w in sb], "tol": tol}
+        dets = ("none", "none", "none", "copy", "pickle", "reload", "zeroed", "times0")
+        detours = [draw(st.sampled_from(dets)), draw(st.sampled_from(dets))]
+        return {"spec": spec, "variants": variants, "sa": [[r, w] for r, w in sa], "sb": [[r, w] for r, w in sb], "tol": tol, "detours": detours}
 
     return cases()
 
@@ -126,7 +128,7 @@ def check(case):
         for v in variants or [None]:
             for opname, swap in combos:
                 try:
-                    info = check_one(spec, v, case["sa"], case["sb"], opname, swap)
+                    info = check_one(spec, v, case["sa"], case["sb"], opname, swap, case.get("detours", ("none", "none")))
                 except Violation as e:
                     if e.kind == "iadd-partial-mutation":
                         known = known or e  # recorded deviation: keep checking the other combinations
@@ -149,9 +151,26 @@ def check(case):
     return info
 
 
-def check_one(spec, v, sa, sb, opname, swap):
-    a = fill(build(spec), sa)
-    b = fill(build(v["spec"] if v else spec), sb)
+def detoured(h, how):
+    """The same state reached through a content-preserving detour (every reachable state counts)."""
+    if how == "copy":
+        return h.copy()
+    if how == "pickle":
+        import pickle  # noqa: PLC0415
+
+        return pickle.loads(pickle.dumps(h))
+    if how == "reload":
+        return lib().Factory.fromJson(h.toJson())
+    if how == "zeroed":
+        return h.zero()
+    if how == "times0":
+        return h * 0.0
+    return h
+
+
+def check_one(spec, v, sa, sb, opname, swap, detours=("none", "none")):
+    a = detoured(fill(build(spec), sa), detours[0])
+    b = detoured(fill(build(v["spec"] if v else spec), sb), detours[1])
     left, right = (b, a) if swap else (a, b)
     dl, dr = doc(left), doc(right)
     op = operator.add if opname == "+" else operator.iadd
@@ -167,6 +186,10 @@ def check_one(spec, v, sa, sb, opname, swap):
         return {"nontrivial": False, "labels": labels + ["control"]}
 
     labels.append("variant:" + v["desc"])
+    # (what is realised in the operands is read BEFORE the operation: a successful += creates instances)
+    dpath0, kind_differs0 = first_difference(spec, v["spec"])
+    where0 = parent_path(dpath0) if kind_differs0 and dpath0 else dpath0
+    realised = bool(walk.instances(a, spec, where0)) and bool(walk.instances(b, v["spec"], where0))
     raised = None
     try:
         op(left, right)
@@ -181,8 +204,6 @@ def check_one(spec, v, sa, sb, opname, swap):
     # existing bin, possibly never, and an operand that never instantiated the differing node is indistinguishable
     # (document, ==) from one built with the other spec.  A different node *type* shows in its parent's "bins:type" as
     # soon as the parent exists; different parameters only in an instance of the node itself.
-    where = parent_path(dpath) if kind_differs and dpath else dpath
-    realised = bool(walk.instances(a, spec, where)) and bool(walk.instances(b, v["spec"], where))
     if not realised:
         labels.append("unrealised-template")
         if raised is None:
